@@ -28,6 +28,39 @@ def repo_tag():
     return "repo" if REPO == "/repo" else "r" + hashlib.sha1(REPO.encode()).hexdigest()[:10]
 
 
+def _private_coq():
+    """A run against another tree (VERIF_REPO) gets its own copy of coq/: the generated tables under
+    Extracted/ and everything compiled against them belong to ONE source tree, and two runs against
+    different trees at the same time would otherwise feed each other's tables to the proofs."""
+    global COQ
+    if REPO == "/repo":
+        return
+    dst = os.path.join(CACHE, "coq-" + repo_tag())
+    os.makedirs(CACHE, exist_ok=True)
+    lock = open(os.path.join(CACHE, "coq.lock"), "w")      # the lock coq_make holds while it builds
+    fcntl.flock(lock, fcntl.LOCK_EX)
+    try:
+        src = os.path.join(VERIF, "coq") + "/"
+        quiet = dict(check=False, stdout=subprocess.DEVNULL, stderr=subprocess.DEVNULL)
+        if not os.path.exists(os.path.join(dst, ".copied")):
+            # first use: one consistent copy (sources, generated tables, compiled files)
+            subprocess.run(["rsync", "-a", "--delete", src, dst + "/"], **quiet)
+            open(os.path.join(dst, ".copied"), "w").close()
+        else:
+            # later: only hand-written sources follow /verif/coq; the tables are this tree's own and
+            # make rebuilds what depends on either
+            subprocess.run(["rsync", "-a", "--update", "--exclude", "Extracted/", "--include", "*/", "--include", "*.v",
+                            "--include", "_CoqProject", "--exclude", "*", src, dst + "/"], **quiet)
+    finally:
+        fcntl.flock(lock, fcntl.LOCK_UN)
+        lock.close()
+    COQ = dst
+    extract.OUT = os.path.join(dst, "Extracted")
+
+
+_private_coq()
+
+
 class Lock:
     def __init__(self, name):
         os.makedirs(CACHE, exist_ok=True)
